@@ -708,35 +708,47 @@ pub fn uniq<F: Family>(cx: &mut Cx<'_, F>, op: &Op) -> Outcome {
             // replaces the handle (the old one loses an owner), or -- if an implementation reuses a
             // uniquely owned allocation -- the value is rebuilt in place, which is a write that
             // must be ordered after every former sharer's access.
-            if k != Kind::ArcP || !F::P::can_make(1) {
+            if !(k == Kind::ArcP || k == Kind::UniP) || !F::P::can_make(1) {
                 return Skipped;
             }
-            let (old_ptr, old_val) = cx.env.m(|m| (m.allocs[ai].ptr, m.allocs[ai].val.unwrap_or(0)));
-            cx.pre_release(ai);
-            let slot = cx.slot(g);
-            let Handle::ArcP(x) = &mut slot.h else { unreachable!() };
-            let r = guarded(|| F::de_in_place(x, op.c));
-            let now_ptr = {
-                let s = cx.slots[g as usize - cx.base].as_ref().unwrap();
-                match &s.h {
-                    Handle::ArcP(x) => x.heap_ptr() as usize,
+            let bad = op.c >= 1000;
+            let old_val = cx.env.m(|m| m.allocs[ai].val.unwrap_or(0));
+            fn where_now<F: Family>(h: &Handle<F>) -> (usize, u32) {
+                match h {
+                    Handle::ArcP(x) => (x.as_ptr() as usize, x.raw()),
+                    Handle::UniP(u) => (&**u as *const F::P as usize, (**u).raw()),
                     _ => unreachable!(),
                 }
+            }
+            let (old_ptr, _) = where_now(&cx.slots[g as usize - cx.base].as_ref().unwrap().h);
+            cx.pre_release(ai);
+            let slot = cx.slot(g);
+            let r = match &mut slot.h {
+                Handle::ArcP(x) => guarded(|| F::de_in_place(x, op.c % 1000, bad)),
+                Handle::UniP(u) => guarded(|| F::de_in_place_uni(u, op.c % 1000, bad)),
+                _ => unreachable!(),
             };
+            let (now_ptr, new_id) = where_now(&cx.slots[g as usize - cx.base].as_ref().unwrap().h);
             let mut exp = Exp::default();
             match r {
                 Ok(None) => {
                     cx.undo_pre_release(ai);
                     Skipped
                 }
-                Ok(Some(Ok(()))) => {
-                    let new_id = {
-                        let s = cx.slots[g as usize - cx.base].as_ref().unwrap();
-                        match &s.h {
-                            Handle::ArcP(x) => x.raw(),
-                            _ => unreachable!(),
-                        }
-                    };
+                Ok(Some(Err(()))) if bad => {
+                    // the payload's own deserialiser rejected the input before producing anything:
+                    // the place keeps its handle, its value and its count, and nothing is destroyed
+                    cx.undo_pre_release(ai);
+                    if now_ptr != old_ptr || (!F::P::ZST && new_id != old_val) {
+                        violation(
+                            "value-mismatch",
+                            format!("`{}` failed on malformed input, yet the place now holds payload #{} at {:#x} instead of #{} at {:#x}", what, new_id, now_ptr, old_val, old_ptr),
+                        );
+                    }
+                    probes::hit(P_DE_IN_PLACE_ERR);
+                    Done(exp)
+                }
+                Ok(Some(Ok(()))) if !bad => {
                     if now_ptr == old_ptr {
                         // rebuilt in place: only legal for a sole owner; the old value was destroyed
                         cx.undo_pre_release(ai);
@@ -760,6 +772,9 @@ pub fn uniq<F: Family>(cx: &mut Cx<'_, F>, op: &Op) -> Outcome {
                         cx.slot(g).ai = nai;
                     }
                     Done(exp)
+                }
+                Ok(Some(Ok(()))) => {
+                    violation("serde:de-differs", format!("`{}` reported success on input that the payload's own deserialiser rejects", what));
                 }
                 Ok(Some(Err(()))) | Err(_) => {
                     violation("unexpected-panic", format!("`{}` failed although the input is well-formed", what));
